@@ -124,21 +124,17 @@ def declare_vars(case, objs, containers=None):
     return V, conts
 
 
-def build_query(case, objs, containers=None, negate: int = 0, quant: Optional[str] = None,
-                negate_desc: int = 0, neg_form: str = "not_") -> Built:
-    """Build the query described by ``case`` over the instantiated dataset ``objs``.
-
-    ``negate`` wraps the whole condition in that many ``not_`` (used by C03).
-    """
-    V, conts = declare_vars(case, objs, containers)
-    cond = case.get("cond")
-    desc = case.get("desc", "entity")
-    quant = quant or case.get("quant", "an")
+def build_over(V, spec, negate: int = 0, quant: Optional[str] = None, negate_desc: int = 0,
+               neg_form: str = "not_", conts=None) -> Built:
+    """Build one query (spec: cond / sel / desc / quant / split_top) over already declared variables ``V``."""
+    cond = spec.get("cond")
+    desc = spec.get("desc", "entity")
+    quant = quant or spec.get("quant", "an")
     with symbolic_mode():
-        sel = [build_term(t, V) for t in case["sel"]]
+        sel = [build_term(t, V) for t in spec["sel"]]
         conds = []
         if cond is not None:
-            if negate == 0 and case.get("split_top") and cond[0] == "and":
+            if negate == 0 and spec.get("split_top") and cond[0] == "and":
                 conds = [build_cond(x, V) for x in cond[2]]
             else:
                 e = build_cond(cond, V)
@@ -152,7 +148,17 @@ def build_query(case, objs, containers=None, negate: int = 0, quant: Optional[st
         for _ in range(negate_desc):
             d = not_(d)
         q = an(d) if quant == "an" else the(d)
-    return Built(q, V, sel, desc, conts)
+    return Built(q, V, sel, desc, conts or [])
+
+
+def build_query(case, objs, containers=None, negate: int = 0, quant: Optional[str] = None,
+                negate_desc: int = 0, neg_form: str = "not_") -> Built:
+    """Build the query described by ``case`` over the instantiated dataset ``objs`` (fresh variables, fresh tree).
+
+    ``negate`` wraps the whole condition in that many negations (used by C03).
+    """
+    V, conts = declare_vars(case, objs, containers)
+    return build_over(V, case, negate, quant, negate_desc, neg_form, conts)
 
 
 def rows_of(built: Built, results) -> List[tuple]:
